@@ -1,5 +1,5 @@
 /- Driver for C17 (lock protocol, MvModel/Lock.lean).  State: protocol + machine state.
-   proto current|swaponly|repaired → ok            (choose the protocol; default repaired)
+   proto current|swaponly|repaired → ok            (choose the protocol; default current = the code as it is)
    reset                          → ok
    create|open|tryopen|openro <h> <p> → ok | fail  (API-level call by handle id h on path p, nothing interleaved)
    put|commit|vacuum|drop|kill <h> → ok            (drop = Drop for Memvid: commit when dirty, then close;
@@ -109,4 +109,4 @@ def dstep (d : DSt) (ws : List String) : DSt × String :=
       | none => (d, "bad-op")
   | _ => (d, "bad-op")
 
-def main : IO Unit := runDriver ({ pr := .repaired, s := init, ids := [] } : DSt) dstep
+def main : IO Unit := runDriver ({ pr := .current, s := init, ids := [] } : DSt) dstep
